@@ -197,6 +197,27 @@ theorem short_string_roundtrip (wide : Bool) (us : List Nat) (trail : Bytes)
 theorem sst_reader_never_out_of_fuel (s : Bytes) : sstFromStream (s.length + 1) s ≠ .outOfFuel :=
   sstFromStream_ne_fuel (s.length + 1) s (Nat.lt_succ_self _)
 
+/-! ## no panic on any input (true since the robustness fixes: every fixed-offset read is length-checked) -/
+
+/-- `parse_sst` on ANY gathered record (any payload, any CONTINUE fragments) returns `Ok` or `Err`:
+    no slice index, no `unwrap`, can fail -/
+theorem parseSst_no_panic (r : Rec) : ∀ e, parseSst r ≠ .panic e := parseSst_noPanic r
+
+/-- `RecordIter::next` never panics -/
+theorem nextRecord_no_panic (s : Bytes) (e : String) : nextRecord s ≠ some (.panic e) := nextRecord_noPanic s e
+
+/-- **totality**: on ANY byte stream, record framing + `parse_sst` (hook `sst_from_stream`) answers `Ok` or
+    `Err` within the driver's fuel — never a panic, never out of fuel -/
+theorem sstFromStream_total (s : Bytes) :
+    (∃ v, sstFromStream (s.length + 1) s = .ok v) ∨ (∃ e, sstFromStream (s.length + 1) s = .err e) :=
+  sstFromStream_ok_or_err s
+
+/-- the two malformed shapes that used to panic are errors: a rich-text header cut by the end of its
+    fragment, and a negative string count -/
+example : sstFromStream 99 [0xFC, 0, 0x0B, 0, 1, 0, 0, 0, 1, 0, 0, 0, 0, 0, 0x0C] = .err "Len:rich extended string:2:0" := by
+  decide
+example : (sstFromStream 99 [0xFC, 0, 8, 0, 1, 0, 0, 0, 0xFF, 0xFF, 0xFF, 0xFF]).isOk = false := by decide
+
 /-! ## non-vacuity: a concrete table and two different legal layouts -/
 
 /-- "ab " then U+1F600 with one rich-text run and two ExtRst bytes -/
